@@ -26,24 +26,24 @@ open Verif.C07 Verif.C07.Graph
 
 /-! ### the graph of a serialized graph -/
 
-theorem graph_usesOf (g : MGraph) (i : Nat) : g.graph.usesOf i = usesAt g i := by
+theorem mgraph_usesOf (g : MGraph) (i : Nat) : g.graph.usesOf i = usesAt g i := by
   unfold MGraph.graph Graph.usesOf usesAt
   simp only [List.getD_eq_getElem?_getD, List.getElem?_map]
   cases g[i]? <;> rfl
 
-theorem graph_ownsOf (g : MGraph) (i : Nat) : g.graph.ownsOf i = ownsAt g i := by
+theorem mgraph_ownsOf (g : MGraph) (i : Nat) : g.graph.ownsOf i = ownsAt g i := by
   unfold MGraph.graph Graph.ownsOf ownsAt
   simp only [List.getD_eq_getElem?_getD, List.getElem?_map]
   cases g[i]? <;> rfl
 
-theorem graph_N (g : MGraph) : g.graph.N = g.length := by simp [MGraph.graph, Graph.N]
+theorem mgraph_N (g : MGraph) : g.graph.N = g.length := by simp [MGraph.graph, Graph.N]
 
-theorem graph_usesOf_fun (g : MGraph) : g.graph.usesOf = usesAt g := funext (graph_usesOf g)
+theorem mgraph_usesOf_fun (g : MGraph) : g.graph.usesOf = usesAt g := funext (mgraph_usesOf g)
 
-theorem graph_wf {g : MGraph} (hl : 0 < g.length) (hu : ∀ i j, j ∈ usesAt g i → j < g.length)
+theorem mgraph_wf {g : MGraph} (hl : 0 < g.length) (hu : ∀ i j, j ∈ usesAt g i → j < g.length)
     (ho : ∀ i j, j ∈ ownsAt g i → j < g.length) : g.graph.wf = true := by
   unfold Graph.wf
-  simp only [Bool.and_eq_true, decide_eq_true_eq, List.all_eq_true, graph_N]
+  simp only [Bool.and_eq_true, decide_eq_true_eq, List.all_eq_true, mgraph_N]
   refine ⟨hl, ?_⟩
   intro nd hnd
   unfold MGraph.graph at hnd
@@ -54,7 +54,7 @@ theorem graph_wf {g : MGraph} (hl : 0 < g.length) (hu : ∀ i j, j ∈ usesAt g 
 
 theorem VOk.wf {v : MGraph} (h : VOk v) : v.graph.wf = true := by
   obtain ⟨r0, rest, rfl, _⟩ := h.shape
-  exact graph_wf (by simp) h.usesLt h.ownsLt
+  exact mgraph_wf (by simp) h.usesLt h.ownsLt
 
 /-- in a variant analysed from source only the root sits at position 0 -/
 theorem VOk.pos_zero {v : MGraph} (h : VOk v) {a : Nat} (ha : a < v.length) (hz : posAt v a = 0) : a = 0 := by
@@ -134,7 +134,7 @@ theorem ginv_reach_bwd {all : List MNode} {g : MGraph} {vs : List MGraph} (hi : 
 def UsedAt (g : MGraph) (k : Nat) : Prop := ∃ i, i < g.length ∧ posAt g i = k ∧ i ∈ g.graph.results.used
 
 theorem ginv_wf {all : List MNode} {g : MGraph} {vs : List MGraph} (hi : GInv all g vs) : g.graph.wf = true :=
-  graph_wf hi.len hi.wfU hi.wfO
+  mgraph_wf hi.len hi.wfU hi.wfO
 
 /-- **One node per position**: in the merge of variants analysed from source, two nodes with
 the same (full) position are the same node. -/
@@ -151,7 +151,7 @@ theorem gmerge_used_iff {vs : List MGraph} (hne : vs ≠ []) (hok : ∀ v, v ∈
     i ∈ (mergeAll vs).graph.results.used ↔ Reach (posUses vs) 0 (posAt (mergeAll vs) i) := by
   have inv := ginv_mergeAll hne hok hpc
   have hok' : ∀ v, v ∈ vs → VOk v := fun v hv => variantOk_spec (hok v hv)
-  rw [used_iff_reachable (ginv_wf inv), graph_usesOf_fun]
+  rw [used_iff_reachable (ginv_wf inv), mgraph_usesOf_fun]
   constructor
   · rintro ⟨_, r⟩; exact ginv_reach_fwd inv r
   · intro r
@@ -222,10 +222,10 @@ theorem gmerge_used_of_variant_used {vs : List MGraph} (hne : vs ≠ []) (hok : 
     ∀ i, i < (mergeAll vs).length → posAt (mergeAll vs) i = posAt v a → i ∈ (mergeAll vs).graph.results.used := by
   have hvo := variantOk_spec (hok v hv)
   obtain ⟨ha0, hr⟩ := (used_iff_reachable hvo.wf a).1 ha
-  rw [graph_usesOf_fun] at hr
+  rw [mgraph_usesOf_fun] at hr
   have hal : a < v.length := by
-    have := reach_lt hvo.wf (wf_pos hvo.wf) (by rw [graph_usesOf_fun]; exact hr)
-    rwa [graph_N] at this
+    have := reach_lt hvo.wf (wf_pos hvo.wf) (by rw [mgraph_usesOf_fun]; exact hr)
+    rwa [mgraph_N] at this
   have hk : posAt v a ≠ 0 := fun hz => ha0 (hvo.pos_zero hal hz)
   have hreach := reach_variant_to_pos hv hvo hr
   refine ⟨(gmerge_usedAt_iff hne hok hpc _ hk).2 hreach, ?_⟩
